@@ -17,7 +17,7 @@ ASSUMPTIONS = ['input phases are already wrapped into [0,2pi) (the property quan
 REQUIRED_CLASSES = ['has-wrap', 'no-wrap', 'wrap-at-last-sample', 'wrap-at-first-sample']
 EXPECTED_LABELS = ['never-raises', 'labels-consecutive-contiguous', 'no-internal-wrap', 'runs-delimited-by-wraps',
                    'all-samples-covered', 'wrap-free-gives-no-cycles', 'shape']
-BUDGET_S = {'quick': 120, 'thorough': 720}
+BUDGET_S = {'quick': 120, 'thorough': 900}
 
 TWO_PI = 2 * math.pi
 
